@@ -267,7 +267,7 @@ impl Prop for C18 {
         vec!["outside the stated domain nothing is asserted: Unicode whitespace between comment and construct, '/' or '*' inside intervening comments, doc comments between annotations and construct, `/***/`".into()]
     }
     fn random_cases(&self, tier: Tier) -> u64 {
-        tier.pick(12_000, 400_000)
+        tier.pick(40_000, 400_000)
     }
     fn max_bytes(&self) -> usize {
         3000
